@@ -110,6 +110,7 @@ class Result:
         self.not_decided: List[str] = []
         self.notes: List[str] = []
         self.selfcheck: Optional[dict] = None
+        self.refusals: List[str] = []     # reasons why nothing can be decided (exit 2 unless a violation was found anyway)
 
     # -------------------------------------------------------------- helpers
     def ob(self, rule: str, instance: str, site: str, ok: bool = True, detail: str = "") -> Obligation:
@@ -133,7 +134,7 @@ class Result:
         from .model import AnalysisError
 
         self.units[what] = got
-        if got < minimum and self.findings:
+        if got < minimum and (self.findings or self.refusals):
             # the shortfall is explained by a reported violation (e.g. a mask step that no longer has the shape)
             self.notes.append(f"instance floor for {what} missed ({got} < {minimum}) together with reported findings")
             return
@@ -199,11 +200,15 @@ def finish(res: Result, tier: str, seed: int, wall_s: float, out_dir: Optional[s
         lines.append(f"  {f.where}: [{f.rule}] {f.func}: {f.message}")
         lines.append(f"    construct: {f.construct}")
         lines.append(f"VIOLATION property={res.prop} replay={path}")
+    refused = bool(res.refusals) and not violations
+    if refused:
+        for r in res.refusals:
+            lines.append(f"ANALYSIS-ERROR property={res.prop} {r}")
     if not quiet:
         print("\n".join(lines))
-    if write_evidence:
+    if write_evidence and not refused:
         write_evidence_file(res, tier, seed, wall_s, matched, violations)
-    return 1 if violations else 0
+    return 1 if violations else (2 if refused else 0)
 
 
 def write_evidence_file(res: Result, tier: str, seed: int, wall_s: float, matched, violations):
